@@ -29,6 +29,7 @@ Two groups of contracts, all discharged by Kani against the REAL code of /repo:
     probe types; k_enum_pos_val: equal types, pairwise distinct symbolic values), raw-named fields that also carry a field-level
     format (raw_field_fmt), raw type / variant names on empty tuples and tuples with skipped / formatted fields, unit shapes
     inside flat holders under width and precision (n_unit_in_tuple; `ob_flat` = default | x? | X? | every width | every precision),
+    a skipped field followed later by a format-attribute field, every ordering, structs and variants (f_skip_fmt_named/_tuple),
     a literal-only field format "h\nt" in pretty mode (f_literal_nl: one write_str with an interior and no trailing newline).
     One representative carries a real `#[kani::ensures]` (proof_for_contract); one negative control.
 
@@ -729,6 +730,19 @@ def type_programs(tier):
                         st("FS", "named", [O("a", ("fmt", '"{:?}"', ["a"])), O("b", "skip")])])
     add("f_enum_fmt", [Ty("FE", [Sh("A", "tuple", [O(attr=("fmt", '"[{:?}]"', ["_0"]))]), Sh("B", "named", [O("x", ("fmt", '"{x:?}."', []))])],
                           is_enum=True)])
+    # a skipped field followed LATER by a format-attribute field (no further skipped field): the output must still be closed by `..`
+    def F(name=None, lit='"<{:?}>"', arg=None):
+        return O(name, ("fmt", lit, [arg]))
+    add("f_skip_fmt_named", [st("SF", "named", [O("a", "skip"), F("b", arg="b")]),
+                             st("SN", "named", [O("a", "skip"), O("b"), F("c", arg="c")]),
+                             st("SM", "named", [O("a"), O("b", "ignore"), F("c", '"{:?}!"', "c")]),
+                             st("SP", "named", [O("a", "ignore"), F("b", arg="b"), O("c")])])
+    add("f_skip_fmt_tuple", [st("TS", "tuple", [O(attr="skip"), F(arg="_1")]),
+                             st("TM", "tuple", [O(), O(attr="ignore"), F(lit='"{:?}!"', arg="_2")]),
+                             st("TP", "tuple", [O(attr="ignore"), F(arg="_1"), O()]),
+                             Ty("EV", [Sh("T", "tuple", [O(attr="skip"), F(arg="_1")]),
+                                       Sh("N", "named", [O("a", "ignore"), F("b", '"{:?}!"', "b")]),
+                                       Sh("M", "tuple", [O(), O(attr="skip"), O(), F(arg="_3")])], is_enum=True)])
     # literal-only format: `Arguments::as_str` must answer Some(..) here, so its model is not used
     add("f_literal", [st("FL", "tuple", [O(attr=("fmt", '"lit"', [])), O()]), st("FM", "named", [O("a", ("fmt", '"lit"', []))])],
         configs=[c for c in cfg if not c[1]], stub=STUB2)
